@@ -85,6 +85,63 @@ mod schema {
     }
 }
 
+/// Verification seam: re-exports of the private Kademlia components (no logic).
+#[cfg(litep2p_verif)]
+pub mod verif {
+    pub use super::{
+        bucket::KBucketEntry,
+        message::KademliaMessage,
+        query::{QueryAction, QueryEngine},
+        record::ProviderRecord,
+        routing_table::RoutingTable,
+        store::{MemoryStore, MemoryStoreAction, MemoryStoreConfig},
+        types::{ConnectionType, Distance, KademliaPeer, Key, KeyBytes},
+    };
+    use crate::PeerId;
+
+    /// Peer id of a [`KademliaPeer`] (field is `pub(super)`).
+    pub fn peer_id(peer: &KademliaPeer) -> PeerId {
+        peer.peer
+    }
+
+    /// Key of a [`KademliaPeer`].
+    pub fn peer_key(peer: &KademliaPeer) -> &Key<PeerId> {
+        &peer.key
+    }
+
+    /// Connection type of a [`KademliaPeer`].
+    pub fn peer_connection(peer: &KademliaPeer) -> ConnectionType {
+        peer.connection
+    }
+
+    /// Build a [`KademliaPeer`] whose DHT key has chosen raw bytes.
+    pub fn peer_with_key(
+        peer: PeerId,
+        key: [u8; 32],
+        addresses: Vec<multiaddr::Multiaddr>,
+        connection: ConnectionType,
+    ) -> KademliaPeer {
+        let mut out = KademliaPeer::new(peer, addresses, connection);
+        out.key = Key::verif_from_raw(peer, key);
+        out
+    }
+
+    /// What `KBucketEntry::insert` does, but keeping the (chosen) key of `new`.
+    pub fn insert_with_key(table: &mut RoutingTable, new: KademliaPeer) -> bool {
+        match table.entry(new.key.clone()) {
+            KBucketEntry::Vacant(old) => {
+                *old = new;
+                true
+            }
+            KBucketEntry::Occupied(old) => {
+                *old = new;
+                true
+            }
+            KBucketEntry::LocalNode | KBucketEntry::NoSlot => false,
+        }
+    }
+}
+
 /// Peer action.
 #[derive(Debug, Clone)]
 #[allow(clippy::enum_variant_names)]
